@@ -200,6 +200,9 @@ func (f *Failover) Get(
 		return f.waitForValue(withoutSkipRead(ctx), key, keyLock)
 	}
 
+	// Expired value to serve if update fails, regardless of MaxStaleness.
+	var stale interface{}
+
 	// Pushing expired value with short ttl to serve during update.
 	if val, freshEnough, unexpectedBackendError := f.valueFromError(err); freshEnough {
 		if err = f.refreshStale(ctx, key, val); err != nil {
@@ -207,8 +210,11 @@ func (f *Failover) Get(
 		}
 
 		value = val
+		stale = val
 	} else if unexpectedBackendError != nil {
 		return nil, unexpectedBackendError // Cache backend failed with unexpected error.
+	} else {
+		stale = val
 	}
 
 	// Check if update failed recently.
@@ -233,8 +239,8 @@ func (f *Failover) Get(
 					"key", key)
 			}
 
-			if value != nil && !f.config.FailHard {
-				return value, nil
+			if stale != nil && !f.config.FailHard {
+				return stale, nil
 			}
 		}
 
@@ -280,7 +286,7 @@ func (f *Failover) valueFromError(err error) (interface{}, bool, error) {
 			return errExpired.Value(), true, nil
 		}
 
-		return nil, false, nil
+		return errExpired.Value(), false, nil
 	}
 
 	if errors.Is(err, ErrNotFound) {
